@@ -237,6 +237,101 @@ function observeProbe(parser, term, ops) {
   return rec;
 }
 
+// ---------------------------------------------------------------- level (A): runtime trees and hash256 token streams
+// Purely syntactic projection of the live validator objects (TypeScript `private` is erased) into the tree terms of
+// spec/algo/Runtime.tla; named types are collected into a table in the order they are first reached.
+export function reflectTree(rt, cg, named) {
+  const R = (x) => reflectTree(x, cg, named);
+  if (rt instanceof cg.BaseRefRuntype) {
+    const n = rt.refName;
+    if (!named.has(n)) {
+      named.set(n, null);
+      const table = rt.getNamedRuntypes();
+      const to = Object.prototype.hasOwnProperty.call(table, n) ? table[n] : undefined;
+      named.set(n, to == null ? { c: "missing" } : R(to));
+    }
+    return { c: "ref", n };
+  }
+  if (rt instanceof cg.OptionalFieldRuntype) return { c: "opt", t: R(rt.t) };
+  if (rt instanceof cg.TypeofRuntype) return { c: "typeof", name: String(rt.typeName) };
+  if (rt instanceof cg.AnyRuntype) return { c: "any" };
+  if (rt instanceof cg.NullishRuntype) return { c: "nullish", d: String(rt.description) };
+  if (rt instanceof cg.NeverRuntype) return { c: "never" };
+  if (rt instanceof cg.ConstRuntype) return { c: "const", v: encode(rt.value === undefined ? null : rt.value) };
+  if (rt instanceof cg.RegexRuntype) return { c: "regex", d: String(rt.description) };
+  if (rt instanceof cg.DateRuntype) return { c: "date" };
+  if (rt instanceof cg.BigIntRuntype) return { c: "bigint" };
+  if (rt instanceof cg.TypedArrayRuntype) return { c: "ta", ctor: String(rt.ctorName) };
+  if (rt instanceof cg.StringWithFormatRuntype) return { c: "sfmt", fs: [...rt.formats] };
+  if (rt instanceof cg.NumberWithFormatRuntype) return { c: "nfmt", fs: [...rt.formats] };
+  if (rt instanceof cg.AnyOfConstsRuntype) return { c: "consts", vs: rt.values.map((v) => encode(v === undefined ? null : v)) };
+  if (rt instanceof cg.TupleRuntype) return { c: "tuple", prefix: rt.prefix.map(R), rest: rt.rest == null ? [] : [R(rt.rest)] };
+  if (rt instanceof cg.AllOfRuntype) return { c: "allOf", ms: rt.schemas.map(R) };
+  if (rt instanceof cg.AnyOfRuntype) return { c: "anyOf", ms: rt.schemas.map(R) };
+  if (rt instanceof cg.ArrayRuntype) return { c: "array", e: R(rt.itemParser) };
+  if (rt instanceof cg.MapRuntype) return { c: "map", kt: R(rt.keyParser), vt: R(rt.valueParser) };
+  if (rt instanceof cg.SetRuntype) return { c: "set", e: R(rt.itemParser) };
+  if (rt instanceof cg.AnyOfDiscriminatedRuntype)
+    return { c: "disc", d: String(rt.discriminator), ms: rt.schemas.map(R),
+             mapping: Object.keys(rt.mapping).map((key) => ({ key, rt: R(rt.mapping[key]) })) };
+  if (rt instanceof cg.ObjectRuntype)
+    return { c: "object", ps: Object.keys(rt.properties).map((key) => ({ key, rt: R(rt.properties[key]) })),
+             ix: rt.indexedPropertiesParser.map((p) => ({ kt: R(p.key), vt: R(p.value) })) };
+  return { c: "unknown", name: String(rt?.constructor?.name) };
+}
+function treeKids(t) {
+  switch (t.c) {
+    case "tuple": return [...t.prefix, ...t.rest];
+    case "allOf": case "anyOf": return t.ms;
+    case "array": case "set": return [t.e];
+    case "map": return [t.kt, t.vt];
+    case "opt": return [t.t];
+    case "disc": return [...t.ms, ...t.mapping.map((p) => p.rt)];
+    case "object": return [...t.ps.map((p) => p.rt), ...t.ix.flatMap((p) => [p.kt, p.vt])];
+    default: return [];
+  }
+}
+function treeStrings(t, keys, consts) {
+  // every string the implementation sorts: property / mapping keys and format names; sort keys of constants
+  if (t.c === "object") for (const p of t.ps) keys.add(p.key);
+  if (t.c === "disc") for (const p of t.mapping) keys.add(p.key);
+  if (t.c === "sfmt" || t.c === "nfmt") for (const f of t.fs) keys.add(f);
+  if (t.c === "consts")
+    for (const v of t.vs) consts.add(v.k === "null" ? "null:" : v.k === "str" ? "string:" + v.s : v.k === "num" ? "number:" + v.n : "boolean:" + String(v.b));
+  for (const k of treeKids(t)) treeStrings(k, keys, consts);
+}
+let HASHMOD = null;
+async function recordTokens(parser) {
+  // the calls hash256() makes on its Hash256Writer, recorded at the writer's public update methods
+  HASHMOD = HASHMOD ?? (await import(pathToFileURL(path.join(clientDir, "hash.js")).href));
+  const proto = HASHMOD.Hash256Writer.prototype;
+  const toks = [];
+  const saved = {};
+  const wrap = (m, f) => {
+    saved[m] = proto[m];
+    proto[m] = function (...a) { toks.push(f(...a)); return saved[m].apply(this, a); };
+  };
+  wrap("updateTag", (x) => ({ k: "tag", s: String(x) }));
+  wrap("updateString", (x) => ({ k: "str", s: String(x) }));
+  wrap("updateNumber", (x) => ({ k: "num", s: numTok(x) }));
+  wrap("updateBoolean", (x) => ({ k: "bool", b: x === true }));
+  wrap("updateNull", () => ({ k: "null" }));
+  let hex = "", msg = "";
+  try { hex = parser.hash256(); } catch (e) { msg = errMsg(e); }
+  finally { for (const m of Object.keys(saved)) proto[m] = saved[m]; }
+  return { toks, hex, msg };
+}
+async function treeObs(parser, cg) {
+  const named = new Map();
+  const tree = reflectTree(parser._runtype, cg, named);
+  const table = [...named].map(([n, rt]) => ({ n, rt }));
+  const keys = new Set(), consts = new Set();
+  treeStrings(tree, keys, consts);
+  for (const e of table) treeStrings(e.rt, keys, consts);
+  const h = await recordTokens(parser);
+  return { tree, named: table, korder: [...keys].sort(), corder: [...consts].sort((a, b) => a.localeCompare(b)), toks: h.toks, hex: h.hex, hmsg: h.msg };
+}
+
 async function runJob(job, cg) {
   const out = { id: job.id, load: "ok", loadmsg: "", probes: [], names: [] };
   let parsers;
@@ -270,6 +365,9 @@ async function runJob(job, cg) {
   if (ops.has("hash")) {
     out.h32 = tri2(() => parser.hash());
     out.h256 = tri2(() => parser.hash256());
+  }
+  if (ops.has("tree")) {
+    try { out.rt = await treeObs(parser, cg); } catch (e) { out.rt = { error: errMsg(e) }; }
   }
   if (ops.has("describe")) out.describe = tri2(() => parser.describe());
   if (ops.has("schema")) {
